@@ -57,20 +57,26 @@ Definition trailing_zero_chars (s : list N) : nat := count_leading_zero_chars (r
 Definition is_nil {A} (l : list A) : bool := match l with [] => true | _ => false end.
 
 (* ---------------------------------------------------------------- Decimal::from_str *)
+(* let integer = if integer.is_empty() { 0 } else { integer.parse::<u128>()? }; *)
+Definition int_part (i : list N) : Res N := if is_nil i then Ok 0 else parse_uint P128 i.
+
+(* let (decimal, scale) = if decimal.is_empty() { (0, 0) } else { ... } *)
+Definition frac_part (f : list N) : Res (N * N) :=
+  if is_nil f then Ok (0, 0) else
+  if negb (forallb is_digit f) then Err E_PARSEINT else             (* fix: digits only *)
+  let tz := N.of_nat (trailing_zero_chars f) in
+  let sig := N.of_nat (length f) - tz in
+  do dv <- parse_uint P128 f;
+  if P128 <=? 10 ^ tz then Err E_TZ else                            (* checked_pow *)
+  if 255 <? sig then Err E_PRECISION else                           (* fix: u8::try_from checked *)
+  Ok (dv / 10 ^ tz, sig).
+
 Definition dec_from_str (s : list N) : Res (N * N) :=
   match split_once C_DOT s with
   | Some (i, f) =>
     if is_nil i && is_nil f then Err E_EMPTY else
-    do integer <- (if is_nil i then Ok 0 else parse_uint P128 i);
-    do '(decimal, scale) <-
-      (if is_nil f then Ok (0, 0) else
-       if negb (forallb is_digit f) then Err E_PARSEINT else             (* fix: digits only *)
-       let tz := N.of_nat (trailing_zero_chars f) in
-       let sig := N.of_nat (length f) - tz in
-       do dv <- parse_uint P128 f;
-       if P128 <=? 10 ^ tz then Err E_TZ else                            (* checked_pow *)
-       if 255 <? sig then Err E_PRECISION else                           (* fix: u8::try_from checked *)
-       Ok (dv / 10 ^ tz, sig));
+    do integer <- int_part i;
+    do '(decimal, scale) <- frac_part f;
     (* fix: 10u128.checked_pow(scale), checked_mul, checked_add *)
     if P128 <=? 10 ^ scale then Err E_AMOUNT else
     if P128 <=? integer * 10 ^ scale then Err E_AMOUNT else
